@@ -18,10 +18,15 @@
 (*                      swap(S_i, S_j); out = S_((S_i + S_j) mod N).        *)
 (*                      Result [st |-> new state, out |-> value].           *)
 (*   Rc4Gen(N, st, n)   n steps: [st |-> state after, ks |-> <<n values>>]  *)
+(*                      (= Rc4GenR(N, st, n, <<>>), the plain tail          *)
+(*                      recursion; evaluated in chunks of 64 steps)         *)
 (*   Rc4Xor(N, st, m)   [st |-> state after Len(m) steps,                   *)
-(*                       out |-> m[t] xor ks[t]]  (encryption = decryption) *)
-(* TLC!TLCEval(v) = v; it only makes TLC evaluate an accumulator eagerly    *)
+(*                       out |-> m[t] xor ks[t]]  (encryption = decryption; *)
+(*                      the xor of two values < 2^k is < 2^k, so N = 8 is   *)
+(*                      closed under it)                                    *)
+(* TLC!TLCEval(v) = v; it only makes TLC evaluate a value eagerly, once,    *)
 (* instead of piling up one lazy thunk per iteration (stack depth).         *)
+(* ST_StreamThm checks Rc4Gen = Rc4GenR and Rc4Xor = XorBytes(m, Rc4Gen).   *)
 (***************************************************************************)
 EXTENDS Words, TLC
 
@@ -44,11 +49,25 @@ Rc4Step(N, st) ==
       S2 == Rc4Swap(st.S, i2, j2)
   IN [st |-> [S |-> S2, i |-> i2, j |-> j2], out |-> S2[((S2[i2+1] + S2[j2+1]) % N) + 1]]
 
+\* n steps from st, keystream appended to acc
 RECURSIVE Rc4GenR(_,_,_,_)
 Rc4GenR(N, st, n, acc) ==
   IF n = 0 THEN [st |-> st, ks |-> acc]
   ELSE LET r == TLCEval(Rc4Step(N, st)) IN Rc4GenR(N, r.st, n-1, Append(acc, r.out))
-Rc4Gen(N, st, n) == Rc4GenR(N, st, n, <<>>)
+\* The same in chunks of 64 steps: TLC evaluates step t of a plain recursion in a context of depth O(t)
+\* (identifier lookups walk it), which is quadratic in n; with chunks the depth is n/64 + 64.
+RECURSIVE Rc4GenC(_,_,_,_)
+Rc4GenC(N, st, n, acc) ==
+  IF n <= 64 THEN Rc4GenR(N, st, n, acc)
+  ELSE LET g == TLCEval(Rc4GenR(N, st, 64, <<>>)) IN Rc4GenC(N, g.st, n - 64, acc \o g.ks)
+Rc4Gen(N, st, n) == Rc4GenC(N, st, n, <<>>)
 
-Rc4Xor(N, st, m) == LET g == Rc4Gen(N, st, Len(m)) IN [st |-> g.st, out |-> XorBytes(m, g.ks)]
+\* m xor keystream, also in chunks of 64 (Words!XorBytes is itself a recursion over the bytes)
+RECURSIVE Rc4XorC(_,_,_,_,_)
+Rc4XorC(N, st, m, off, acc) ==
+  IF Len(m) - off <= 64
+  THEN LET g == Rc4GenR(N, st, Len(m) - off, <<>>) IN [st |-> g.st, out |-> acc \o XorBytes(SubSeq(m, off + 1, Len(m)), g.ks)]
+  ELSE LET g == TLCEval(Rc4GenR(N, st, 64, <<>>))
+       IN Rc4XorC(N, g.st, m, off + 64, TLCEval(acc \o XorBytes(SubSeq(m, off + 1, off + 64), g.ks)))
+Rc4Xor(N, st, m) == Rc4XorC(N, st, m, 0, <<>>)
 =============================================================================
